@@ -253,6 +253,10 @@ def check(run: Run) -> None:
     for depth in (0, 1, 127, 128, 129):
         for prog in (b"\x51", b"\x61" * 519 + b"\x51", b"\x61" * 520 + b"\x51", b"\x61" * 2000 + b"\x51", b"\x4d\x08\x02" + bytes(520) + b"\x75\x51"):
             spends.append(c08.tapscript_spend(r8, prog, [], ["P2SH", "TAPROOT", "WITNESS"], (2, 0, 0xFFFFFFFF), path_len=depth))
+    # the recorded finding, always in the corpus (C08's 0xff corner seen from this side), so that its KNOWN-FINDING line does not depend on the seed
+    listed = c08.tapscript_spend(r8, b"\x00\x63\xff\x68\x51", [], ["P2SH", "TAPROOT", "WITNESS"], (2, 0, 0xFFFFFFFF), path_len=1)
+    listed["why"] = "honest"
+    spends.append(listed)
     spends = [e for e in spends if not isinstance(e["ok"], str)]
     res8, bad8, diag8 = events.validate("C08Trace", spends, batch=600)
     for r in res8:
@@ -260,7 +264,9 @@ def check(run: Run) -> None:
     for k in bad8:
         e = spends[k]
         d = diag8.get(k) or {}
-        run.violation(f"taproot|engine|{e.get('why', '')}|{d.get('verdict', '?') if isinstance(d, dict) else '?'}|code={'accepts' if e['ok'] else 'refuses'}",
+        # (the corner of the tapscript the spend sits on is part of the key: the engine route shares C08's corpus, and with it the recorded 0xff finding)
+        corner = c08.tapscript_class(e)
+        run.violation(f"taproot|engine|{e.get('why', '')}|{d.get('verdict', '?') if isinstance(d, dict) else '?'}|code={'accepts' if e['ok'] else 'refuses'}" + (f"|{corner}" if corner else ""),
                       f"verify_input on a taproot script-path spend ({e.get('why')}): btclib {'accepts' if e['ok'] else 'refuses'}, BIP341 gives {d}", {"event": e, "spec": d})
     run.section("engine_route", {"spends": len(spends), "accepted": sum(1 for e in spends if e["ok"])})
     run.sample({k: (v if k != "tree" else "...") for k, v in evs2[0].items()})
